@@ -1,5 +1,12 @@
-(* Proofs about the model of strip_ignored_characters (Lang/Strip.v). *)
-From GV Require Import Base.Prelude Lang.Lexer Lang.LexerProps Lang.LexerLoc Lang.BlockString Lang.BlockStringProps Lang.Strip.
+(* Proofs about the model of strip_ignored_characters (Lang/Strip.v).
+   Outline: (B)-(C) what read_number / read_string_loop consumed is consumed again, with the same result,
+   in front of any text that cannot extend it; (E) read_token_ana: shape of the gap and of the lexeme of
+   every token read_token returns; (F) relex0: the text strip emits for a token (its lexeme, or the
+   minimised block string re-printed from the value - round trip of Lang/StripBlock.v) is read back as a
+   token of the same kind and value in front of whatever strip emits next; (G) strip_main, by induction on
+   the lexer's fuel over the ORIGINAL source: the stripped text lexes to the same significant tokens, is
+   tight, and is a fixed point of strip; (H) the theorems re-exported in Properties/C09strip.v. *)
+From GV Require Import Base.Prelude Lang.Lexer Lang.LexerProps Lang.LexerLoc Lang.BlockString Lang.BlockStringProps Lang.StripBlock Lang.Strip.
 
 (* ---- rejected sources stay rejected, at the same position; accepted sources are stripped ---- *)
 Lemma strip_loop_lex fuel : forall body cu s last,
@@ -474,7 +481,7 @@ Inductive lexeme_of (tk : token) (lx s' : list N) : Prop :=
        read_string_loop fuel2 pos2 [] (body ++ r2) = Ok ((pos2 + length body)%nat, tvalue tk, r2)) ->
     tkind tk = K_STRING -> thasval tk = true -> lexeme_of tk lx s'
 | L_block : tkind tk = K_BLOCK_STRING -> thasval tk = true -> in_block_range (tvalue tk) = true ->
-    lexeme_of tk lx s'
+    lines_wp (split_lf (tvalue tk)) -> lexeme_of tk lx s'
 | L_comment : tkind tk = K_COMMENT -> lexeme_of tk lx s'.
 
 Lemma read_token_ana cu s tk cu' s' : read_token cu s = Ok (tk, cu', s') ->
@@ -518,8 +525,9 @@ Proof.
       + cbn [mk tend length]. rewrite firstn_length_le by (destruct Ak; lia). lia.
       + reflexivity.
       + cbn [mk tkind]. change (K_BLOCK_STRING =? K_EOF) with false. cbv iota.
-        apply L_block; [reflexivity|reflexivity|].
-        eapply block_token_in_range; [exact H0|reflexivity].
+        apply L_block; [reflexivity|reflexivity| |].
+        * eapply block_token_in_range; [exact H0|reflexivity].
+        * eapply block_token_wp; [exact H0|reflexivity].
     - destruct (read_string_loop (S (length t)) (S (cpos cu1)) [] t) as [[[e v] rest]| | |] eqn:Er; try discriminate.
       apply rsl_loc in Er as (a & -> & -> & L). inversion H; subst tk cu' s'.
       assert (Hne : a <> []).
@@ -582,7 +590,7 @@ Lemma lexeme_no_ignored tk lx s' : lexeme_of tk lx s' ->
 Proof.
   intros HL H1 H2 H3.
   destruct HL as [c -> Hpk _ _ | -> _ _ _ | c b -> Hns Hb _ _ _ _
-                 | fl _ _ Hnc _ _ _ _ | body -> _ _ _ Hk _ | Hk _ _ | Hk]; try congruence.
+                 | fl _ _ Hnc _ _ _ _ | body -> _ _ _ Hk _ | Hk _ _ _ | Hk]; try congruence.
   - destruct (punct_kind_some _ _ Hpk) as (Hin & _). apply punct_char_facts in Hin.
     constructor; [tauto|constructor].
   - repeat constructor.
@@ -661,15 +669,14 @@ Lemma read_token_nogap cu s : peek_is is_ignored_char s = false ->
 Proof. intros H. unfold read_token. rewrite (skip_ignored_stop cu s H). reflexivity. Qed.
 
 Lemma relex0 tk lx s' : lexeme_of tk lx s' -> (tkind tk =? K_COMMENT) = false ->
-  (tkind tk = K_BLOCK_STRING -> scalars (tvalue tk)) ->
   forall cu2 rest2, (is_punct_kind (tkind tk) = true \/ follow_ok rest2) ->
   relexed tk (retext tk lx) cu2 (retext tk lx ++ rest2) rest2 0.
 Proof.
-  intros HL Hnc Hsc cu2 rest2 Hfol. unfold relexed, retext.
+  intros HL Hnc cu2 rest2 Hfol. unfold relexed, retext.
   assert (Hnp : is_punct_kind (tkind tk) = false -> follow_ok rest2).
   { intros E. destruct Hfol as [F|F]; [congruence|exact F]. }
   destruct HL as [c -> Hpk Hhv Hv | -> Hk Hhv Hv | c b -> Hns Hb Hs' Hk Hhv Hv
-                 | fl Hhd Hs' _ L Hk Hhv Hv | body -> Hne Hst L Hk Hhv | Hk Hhv Hr | Hk].
+                 | fl Hhd Hs' _ L Hk Hhv Hv | body -> Hne Hst L Hk Hhv | Hk Hhv Hr Hw | Hk].
   - (* punctuator *)
     destruct (punct_kind_some _ _ Hpk) as (Hin & _ & _ & _ & _ & Hnb). rewrite Hnb.
     destruct (punct_char_facts _ Hin) as (E35 & E34 & Eig & _).
@@ -719,7 +726,7 @@ Proof.
     rewrite Hhv. repeat split; lia.
   - (* block string *)
     rewrite Hk. change (K_BLOCK_STRING =? K_BLOCK_STRING) with true. cbv iota.
-    destruct (block_roundtrip_main (tvalue tk) true [] cu2 rest2 Hr (Hsc Hk) (Forall_nil _))
+    destruct (block_roundtrip_wp (tvalue tk) true [] cu2 rest2 Hr Hw (Forall_nil _))
       as (tk2 & cu2' & E & Ek & Eh & Ev & Es & Ee & Ec).
     cbn [indent_all] in E, Ee. exists tk2, cu2'. rewrite Hhv. repeat split; auto; lia.
   - rewrite Hk in Hnc. discriminate.
@@ -732,7 +739,7 @@ Proof.
   destruct (tkind tk =? K_BLOCK_STRING) eqn:Eb.
   { unfold print_block_string. cbv zeta. rewrite app_length. cbn [TQ length]. lia. }
   destruct HL as [c -> _ _ _ | -> _ _ _ | c b -> _ _ _ _ _ _
-                 | fl Hhd _ _ _ _ _ _ | body -> _ _ _ _ _ | Hk _ _ | Hk]; cbn [length]; try lia.
+                 | fl Hhd _ _ _ _ _ _ | body -> _ _ _ _ _ | Hk _ _ _ | Hk]; cbn [length]; try lia.
   - destruct lx; [discriminate|cbn; lia].
   - rewrite Hk in Eb. discriminate.
   - rewrite Hk in Hnc. discriminate.
@@ -778,14 +785,11 @@ Proof.
   rewrite Hen, Hst. apply (slice_lexeme body (cpos cu) g lx s'). congruence.
 Qed.
 
-Lemma scalars_parts g lx s' : scalars (g ++ lx ++ s') -> scalars s'.
-Proof. unfold scalars. intros H. apply Forall_app in H as [_ H]. apply Forall_app in H as [_ H]. exact H. Qed.
-
 Lemma eof_token_nil cu : read_token cu [] = Ok (mk K_EOF cu (cpos cu) (cpos cu) None, cu, []).
 Proof. reflexivity. Qed.
 
 Lemma strip_main fuel : forall body cu s last ts,
-  skipn (cpos cu) body = s -> scalars s -> lex_loop fuel cu s = Ok ts ->
+  skipn (cpos cu) body = s -> lex_loop fuel cu s = Ok ts ->
   exists out, strip_loop fuel body cu s last = Ok out /\ (last = true -> follow_ok out) /\
     forall fuel2 body2 cu2, (length out < fuel2)%nat -> skipn (cpos cu2) body2 = out ->
       (exists ts2, lex_loop fuel2 cu2 out = Ok ts2 /\
@@ -793,7 +797,7 @@ Lemma strip_main fuel : forall body cu s last ts,
                    tight last (cpos cu2) out ts2) /\
       strip_loop fuel2 body2 cu2 out last = Ok out.
 Proof.
-  induction fuel as [|f IH]; intros body cu s last ts Hbody Hsc Hlex; [discriminate|].
+  induction fuel as [|f IH]; intros body cu s last ts Hbody Hlex; [discriminate|].
   cbn [lex_loop] in Hlex. cbn [strip_loop].
   destruct (read_token cu s) as [[[tk cu'] s']| | |] eqn:Ert; try discriminate.
   destruct (read_token_ana _ _ _ _ _ Ert) as (g & lx & Es & Hg & Hst & Hen & Hcu' & Hcls).
@@ -810,24 +814,21 @@ Proof.
   - destruct (lex_loop f cu' s') as [ts'| | |] eqn:El; try discriminate. inversion Hlex; subst ts. clear Hlex.
     assert (Hbody' : skipn (cpos cu') body = s').
     { rewrite Hcu', Hen, Hst. apply (suffix_step body (cpos cu) g lx s'). congruence. }
-    assert (Hsc' : scalars s') by (rewrite Es in Hsc; exact (scalars_parts _ _ _ Hsc)).
     destruct (tkind tk =? K_COMMENT) eqn:Ec.
     + (* a comment is skipped *)
-      destruct (IH body cu' s' last ts' Hbody' Hsc' El) as (out & Eo & Hfo & Hre).
+      destruct (IH body cu' s' last ts' Hbody' El) as (out & Eo & Hfo & Hre).
       exists out. split; [exact Eo|]. split; [exact Hfo|]. intros fuel2 body2 cu2 Hf Hb2.
       destruct (Hre fuel2 body2 cu2 Hf Hb2) as ((ts2 & E2 & Hsig & Ht) & Hid).
       split; [|exact Hid]. exists ts2. split; [exact E2|]. split; [|exact Ht].
       rewrite Hsig. unfold significant. cbn [filter]. rewrite Ec. reflexivity.
     + (* a significant token *)
       set (np := negb (is_punct_kind (tkind tk))).
-      destruct (IH body cu' s' np ts' Hbody' Hsc' El) as (out' & Eo & Hfo & Hre). rewrite Eo.
+      destruct (IH body cu' s' np ts' Hbody' El) as (out' & Eo & Hfo & Hre). rewrite Eo.
       set (sep := sep_before last (tkind tk)).
       assert (Etxt : token_text body tk = retext tk lx)
         by exact (token_text_retext body cu s tk g lx s' Hbody Es Hst Hen).
       rewrite Etxt. set (txt := retext tk lx).
       exists (sep ++ txt ++ out'). split; [reflexivity|].
-      assert (Hscv : tkind tk = K_BLOCK_STRING -> scalars (tvalue tk)).
-      { intros Hk. exact (block_token_scalars cu s tk cu' s' Hsc Ert Hk). }
       assert (Hfol : is_punct_kind (tkind tk) = true \/ follow_ok out').
       { destruct (is_punct_kind (tkind tk)) eqn:Ep; [left; reflexivity|right]. apply Hfo. reflexivity. }
       assert (Hntxt : (1 <= length txt)%nat) by (eapply retext_nonempty; eauto).
@@ -843,13 +844,13 @@ Proof.
         - cbn [app follow_ok]. left. reflexivity.
         - apply orb_false_iff in Esp as [Ep Esp]. apply negb_false_iff in Ep. cbn [app].
           destruct Hcls as [c -> Hpk _ _ | _ Hk _ _ | c b _ _ _ _ Hk _ _
-                 | fl _ _ _ _ Hk _ _ | body0 _ _ _ _ Hk _ | Hk _ _ | Hk];
+                 | fl _ _ _ _ Hk _ _ | body0 _ _ _ _ Hk _ | Hk _ _ _ | Hk];
             try (rewrite Hk in Ep; try destruct fl; discriminate).
           + unfold txt, retext. destruct (punct_kind_some _ _ Hpk) as (Hin & _ & _ & _ & _ & ->).
             cbn [app follow_ok]. right. exact Hin.
           + rewrite Hk in Esp. discriminate. }
       intros fuel2 body2 cu2 Hf Hb2. destruct fuel2 as [|f2]; [cbn in Hf; lia|].
-      destruct (relex_gap tk txt out' (fun c2 => relex0 tk lx s' Hcls Ec Hscv c2 out' Hfol) sep cu2
+      destruct (relex_gap tk txt out' (fun c2 => relex0 tk lx s' Hcls Ec c2 out' Hfol) sep cu2
                   (sep_before_cases last (tkind tk)))
         as (tk2 & cu2' & E2 & Hk2 & Hv2 & Hh2 & Hs2 & He2 & Hc2).
       assert (Hb2' : skipn (cpos cu2') body2 = out').
@@ -882,35 +883,35 @@ Proof.
   destruct (lex_loop (S (length s)) init_cursor s) as [ts| | |]; [exists ts; reflexivity|congruence..].
 Qed.
 
-Lemma strip_all s ts : scalars s -> lex s = Ok ts ->
+Lemma strip_all s ts : lex s = Ok ts ->
   exists out ts2, strip s = Ok out /\ lex out = Ok ts2 /\
     map tok_sig (significant ts2) = map tok_sig (significant ts) /\
     tight false 0 out ts2 /\ strip out = Ok out.
 Proof.
-  unfold lex, strip. intros Hsc Hl.
-  destruct (strip_main (S (length s)) s init_cursor s false ts eq_refl Hsc Hl) as (out & Eo & _ & Hre).
+  unfold lex, strip. intros Hl.
+  destruct (strip_main (S (length s)) s init_cursor s false ts eq_refl Hl) as (out & Eo & _ & Hre).
   destruct (Hre (S (length out)) out init_cursor ltac:(lia) eq_refl) as ((ts2 & E2 & Hsig & Ht) & Hid).
   exists out, ts2. auto.
 Qed.
 
-Theorem strip_preserves_tokens s ts : scalars s -> lex s = Ok ts ->
+Theorem strip_preserves_tokens s ts : lex s = Ok ts ->
   exists out ts2, strip s = Ok out /\ lex out = Ok ts2 /\
     map tok_sig (significant ts2) = map tok_sig (significant ts).
 Proof.
-  intros Hsc Hl. destruct (strip_all s ts Hsc Hl) as (out & ts2 & H1 & H2 & H3 & _).
+  intros Hl. destruct (strip_all s ts Hl) as (out & ts2 & H1 & H2 & H3 & _).
   exists out, ts2. auto.
 Qed.
 
-Theorem strip_idempotent s out : scalars s -> strip s = Ok out -> strip out = Ok out.
+Theorem strip_idempotent s out : strip s = Ok out -> strip out = Ok out.
 Proof.
-  intros Hsc H. destruct (strip_ok_lex s out H) as (ts & Hl).
-  destruct (strip_all s ts Hsc Hl) as (out1 & ts2 & H1 & _ & _ & _ & H5). congruence.
+  intros H. destruct (strip_ok_lex s out H) as (ts & Hl).
+  destruct (strip_all s ts Hl) as (out1 & ts2 & H1 & _ & _ & _ & H5). congruence.
 Qed.
 
-Theorem strip_tight s out : scalars s -> strip s = Ok out ->
+Theorem strip_tight s out : strip s = Ok out ->
   exists ts2, lex out = Ok ts2 /\ tight false 0 out ts2.
 Proof.
-  intros Hsc H. destruct (strip_ok_lex s out H) as (ts & Hl).
-  destruct (strip_all s ts Hsc Hl) as (out1 & ts2 & H1 & H2 & _ & H4 & _).
+  intros H. destruct (strip_ok_lex s out H) as (ts & Hl).
+  destruct (strip_all s ts Hl) as (out1 & ts2 & H1 & H2 & _ & H4 & _).
   assert (out1 = out) by congruence. subst out1. exists ts2. auto.
 Qed.
